@@ -49,7 +49,7 @@ def correspond(ctx):
         sc = const_scene(rng, em, ms, atmosphere=bool(rng.random() < 0.5))
         try:
             c, s = pC01.extract(sc)
-        except AssertionError:
+        except (AssertionError, Warning):      # a scene refused by a validity guard is not an input of the property
             continue
         made += 1
         amp = float(np.abs(c.x).max()) * max(float(np.abs(l["Eu"]).max()) for l in c.layers)
@@ -77,7 +77,7 @@ def correspond(ctx):
         sc = const_scene(rng, "iba", "exponential", atmosphere=True)
         try:
             c, s = pC01.extract(sc)
-        except AssertionError:
+        except (AssertionError, Warning):      # a scene refused by a validity guard is not an input of the property
             continue
         a = sc["atmosphere"]
         outmu, tb = s.dort(m_max=0)
@@ -213,11 +213,31 @@ def oracle(ctx, hints, effort):
         try:
             evals += 2
             r = check_composition(sc, atm)
-        except AssertionError:
+        except (AssertionError, Warning):      # a scene refused by a validity guard is not an input of the property
             continue
         if r is not None:
             findings.setdefault(r[0], Finding(r[0], f"Tb under the atmosphere {atm} is not tb_up + transmittance x (Tb under a loss-free sky at tb_down)",
                                               {"kind": "composition", "scene": sc, "atm": list(atm)}, r[1], r[2]))
+    # one thin absorbing layer (the exact case: weights sum to one within 1e-6) over every kind of boundary in turn, rough where roughness
+    # exists, polarisation-dependent where the reflectivity is prescribed
+    subs = [dict(kind="rough_choudhury79", eps=[20.0, 4.0], params=dict(roughness_rms=8e-5)),
+            dict(kind="soil_wegmuller", eps=[12.0, 2.0], params=dict(roughness_rms=0.01)),
+            dict(kind="soil_qnh", eps=[9.0, 1.5], params=dict(Q=0.1, N=1.0, H=0.4, Nv=1.0, Nh=0.5)),
+            dict(kind="reflector_backscatter", eps=[3.0, 0.0], params=dict(specular_reflection={"H": 0.6, "V": 0.2})),
+            dict(kind="reflector", eps=[3.0, 0.0], params=dict(specular_reflection={"H": 0.3, "V": 0.7}))]
+    for j, sub in enumerate(subs if effort != "routine" else [subs[(int(rng.integers(0, 10**6)) + q) % len(subs)] for q in range(3)] + subs[:1] + subs[3:4]):
+        sc = dict(thickness=[round(float(rng.uniform(0.15, 0.4)), 3)], density=[round(float(rng.uniform(200, 350)), 1)], temperature=[250.0],
+                  microstructure="exponential", frequency=10.65e9, micro=dict(corr_length=[round(float(rng.uniform(5e-5, 2e-4)), 7)]),
+                  ice_permittivity=[3.18, 2e-3], substrate=dict(sub, T=round(float(rng.uniform(200, 280)), 2)), emmodel="iba", nmax=16)
+        sd_ = int(rng.integers(0, 2**31))
+        try:
+            evals += 6
+            r = check_linear(sc, sd_)
+        except (AssertionError, Warning):      # a scene refused by a validity guard is not an input of the property
+            continue
+        if r is not None:
+            key = f"{r[0]}:{sub['kind']}"
+            findings.setdefault(key, Finding(key, f"{r[0]} violated over a {sub['kind']} boundary", {"scene": sc, "seed": sd_}, r[1], r[2]))
     n = 4 if effort == "routine" else 40
     for i in range(-1, n):
         em, ms = pC01.PAIRINGS[i % (3 if effort == "routine" else len(pC01.PAIRINGS))]
@@ -237,7 +257,7 @@ def oracle(ctx, hints, effort):
         seed = int(rng.integers(0, 2**31))
         try:
             r = check_linear(sc, seed)
-        except AssertionError:
+        except (AssertionError, Warning):      # a scene refused by a validity guard is not an input of the property
             continue
         except Exception as e:  # noqa
             from smrt.core.error import SMRTError
